@@ -150,3 +150,137 @@ pub fn c18_ser_str(inp: &[u8; 3]) -> Result<(), u32> {
 pub fn selftest(inp: &[u8; 3]) -> Result<(), u32> {
     if inp[0] == 7 && inp[2] == 9 { Err(1) } else { Ok(()) }
 }
+
+/// C09 (smaller): two sources with 0..2 messages each merged by SortingMultiReaderIterator.
+/// inp[0..2]: lengths (mod 3); inp[2..6]: reception times (second = first + delta); inp[6]: start index.
+/// codes as c09_merge (1 count, 2 index, 3 not sorted, 4 per-source order, 5 lost/duplicated)
+pub fn c09_sort2(inp: &[u8; 7]) -> Result<(), u32> {
+    let start = inp[6] as u32;
+    let mut its: Vec<Box<dyn Iterator<Item = DltMessage>>> = Vec::with_capacity(2);
+    let mut total = 0usize;
+    let mut tagsum = 0u32;
+    for s in 0..2usize {
+        let l = (inp[s] % 3) as usize;
+        let mut v = Vec::with_capacity(2);
+        let t0 = inp[2 + 2 * s] as u64;
+        for k in 0..l {
+            let t = if k == 0 { t0 } else { t0 + inp[3 + 2 * s] as u64 };
+            let tag = (s * 2 + k + 1) as u8;
+            tagsum += tag as u32;
+            v.push(mk_msg(t, tag));
+        }
+        total += l;
+        its.push(Box::new(v.into_iter()));
+    }
+    let it = SortingMultiReaderIterator::new(start, its);
+    let mut n = 0usize;
+    let mut last_t = 0u64;
+    let mut last_tag = [0u8; 2];
+    let mut sum = 0u32;
+    for m in it {
+        if m.index != start + n as u32 { return Err(2); }
+        if m.reception_time_us < last_t { return Err(3); }
+        last_t = m.reception_time_us;
+        let tag = m.standard_header.mcnt;
+        let s = ((tag - 1) / 2) as usize;
+        if tag <= last_tag[s] { return Err(4); }
+        last_tag[s] = tag;
+        sum += tag as u32;
+        n += 1;
+        if n > 4 { return Err(1); }
+    }
+    if n != total { return Err(1); }
+    if sum != tagsum { return Err(5); }
+    Ok(())
+}
+
+/// C09 (smaller): three sources with 0..1 message each chained by SequentialMultiIterator and merged by
+/// SortingMultiReaderIterator (catches sources dropped after an empty one). inp[0..3]: lengths (mod 2), inp[3]: start index.
+/// codes: 11 chain count, 12 chain index, 13 chain order, 1 merge count, 2 merge index
+pub fn c09_three_sources(inp: &[u8; 4]) -> Result<(), u32> {
+    let start = inp[3] as u32;
+    let mut total = 0usize;
+    let mut v1: Vec<Box<dyn Iterator<Item = DltMessage>>> = Vec::with_capacity(3);
+    let mut v2: Vec<Box<dyn Iterator<Item = DltMessage>>> = Vec::with_capacity(3);
+    for s in 0..3usize {
+        let l = (inp[s] % 2) as usize;
+        total += l;
+        let a: Vec<DltMessage> = if l == 1 { vec![mk_msg(s as u64, s as u8 + 1)] } else { Vec::new() };
+        let b: Vec<DltMessage> = if l == 1 { vec![mk_msg(s as u64, s as u8 + 1)] } else { Vec::new() };
+        v1.push(Box::new(a.into_iter()));
+        v2.push(Box::new(b.into_iter()));
+    }
+    let mut n = 0usize;
+    let mut prev = 0u8;
+    for m in SequentialMultiIterator::new(start, v1.into_iter()) {
+        if m.index != start + n as u32 { return Err(12); }
+        if m.standard_header.mcnt <= prev { return Err(13); }
+        prev = m.standard_header.mcnt;
+        n += 1;
+        if n > 3 { return Err(11); }
+    }
+    if n != total { return Err(11); }
+    let mut n2 = 0usize;
+    for m in SortingMultiReaderIterator::new(start, v2) {
+        if m.index != start + n2 as u32 { return Err(2); }
+        n2 += 1;
+        if n2 > 3 { return Err(1); }
+    }
+    if n2 != total { return Err(1); }
+    Ok(())
+}
+
+use adlt::dlt::{parse_dlt_with_storage_header, ErrorKind};
+
+fn sh_pat(d: &[u8], i: usize) -> bool { i + 4 <= d.len() && d[i] == 0x44 && d[i + 1] == 0x4c && d[i + 2] == 0x54 && d[i + 3] == 0x01 }
+fn hdr_size(h: u8) -> usize { 4 + if h & 4 != 0 { 4 } else { 0 } + if h & 8 != 0 { 4 } else { 0 } + if h & 16 != 0 { 4 } else { 0 } + if h & 1 != 0 { 10 } else { 0 } }
+
+/// C01/C03: parse_dlt_with_storage_header on every 28-byte input whose first 4 bytes are the storage marker, against the
+/// byte-layout oracle (the same one the Verus unit dltcore states as spec_parse_storage), written again in plain Rust.
+/// inp: bytes 4..28 of the data (the marker is prepended). codes: 1 classification differs, 2 consumed length,
+/// 3 header fields, 4 payload, 5 ecu, 6 timestamp
+pub fn c01_parse_storage(inp: &[u8; 24]) -> Result<(), u32> {
+    let mut d = [0u8; 28];
+    d[0] = 0x44; d[1] = 0x4c; d[2] = 0x54; d[3] = 0x01;
+    d[4..28].copy_from_slice(inp);
+    let l = (d[18] as usize) * 256 + d[19] as usize;
+    let h = hdr_size(d[16]);
+    // oracle: 0 = NotEnough, 1 = Invalid, 2 = Msg
+    let (cls, n) = if l < h { (1, 0) } else if d.len() - 16 < l { (0, 0) } else {
+        let n = 16 + l;
+        let mut inner = false;
+        let mut i = 5;
+        while i < n { if sh_pat(&d, i) { inner = true; } i += 1; }
+        if d.len() - n >= 4 && !sh_pat(&d, n) && inner { (1, 0) } else { (2, n) }
+    };
+    match parse_dlt_with_storage_header(7, &d) {
+        Ok((consumed, m)) => {
+            if cls != 2 { return Err(1); }
+            if consumed != n { return Err(2); }
+            if m.index != 7 || m.standard_header.htyp != d[16] || m.standard_header.mcnt != d[17] || m.standard_header.len as usize != l { return Err(3); }
+            if m.payload[..] != d[16 + h..16 + l] { return Err(4); }
+            let ecu: &[u8] = if d[16] & 4 != 0 { &d[20..24] } else { &d[12..16] };
+            if m.ecu.as_buf()[..] != ecu[..] { return Err(5); }
+            let to = 20 + if d[16] & 4 != 0 { 4 } else { 0 } + if d[16] & 8 != 0 { 4 } else { 0 };
+            let ts = if d[16] & 16 != 0 { u32::from_be_bytes([d[to], d[to + 1], d[to + 2], d[to + 3]]) } else { 0 };
+            if m.timestamp_dms != ts { return Err(6); }
+            if (m.extended_header.is_some()) != (d[16] & 1 != 0) { return Err(3); }
+            Ok(())
+        }
+        Err(e) => match e.kind() {
+            ErrorKind::InvalidData(_) => if cls == 1 { Ok(()) } else { Err(1) },
+            ErrorKind::NotEnoughData(_) => if cls == 0 { Ok(()) } else { Err(1) },
+            _ => Err(1),
+        },
+    }
+}
+
+/// C03: parse_ctrl_log_info_payload never panics (status 3..6: no description text, which would reach encoding_rs / regex)
+/// inp[0]: status selector, inp[1]: endianness + length (0..10), inp[2..12]: payload. code 1: more entries than announced
+pub fn c03_log_info(inp: &[u8; 12]) -> Result<(), u32> {
+    let status = 3 + inp[0] % 4;
+    let len = (inp[1] >> 1) as usize % 11;
+    let r = adlt::dlt::control_msgs::parse_ctrl_log_info_payload(status, inp[1] & 1 == 1, &inp[2..2 + len]);
+    if r.len() > 65535 { return Err(1); }
+    Ok(())
+}
